@@ -872,7 +872,11 @@ def check_liveness(scn, res):
         # a consumer that falls silent (long process() call) for longer than the connection timeout counts as the fault
         stalls = [e for e in res.log if e['ev'] == 'process' and 'stall' in e and e['stall'][1] >= (scn.get('conn_timeout') or 5000)]
 
-        if not stalls and scn.get('c06_nofault'):
+        loses = [e for e in res.log if e['ev'] == 'lose']
+
+        if loses:      # one message lost on the wire (PUB high-water mark): the pipeline must be moving again within the bound
+            kills = [{'f': None, 't': loses[0]['t'], 'restart': 0, 'nofault': True, 'lost': loses[0]['pipe']}]
+        elif not stalls and scn.get('c06_nofault'):
             kills = [{'f': None, 't': 0, 'restart': 0, 'nofault': True}]       # no fault: judged from the start (the bound covers start-up)
         elif not stalls:
             return viols
@@ -930,7 +934,8 @@ def check_liveness(scn, res):
 
         for t in times + [end]:
             if t - prev > bound and prev + bound <= end and k.get('nofault'):
-                bad('deadlock-without-fault', f'no fault at all, the source still has frames, yet live sink {name} processed no new frame between {prev} and {t} ms '
+                bad('stuck-after-lost-message' if k.get('lost') else 'deadlock-without-fault',
+                    (f'one message was lost on {k["lost"]} at {k["t"]} ms' if k.get('lost') else 'no fault at all') + f', the source still has frames, yet live sink {name} processed no new frame between {prev} and {t} ms '
                     f'(bound {bound} ms; run ended at {end} ms)', {'sink': name, 'times': times[:30]})
                 break
 
